@@ -181,11 +181,25 @@ class NPModel:
     amax = max
 
     def _red(self, a, is_min, skipnan, axis):
-        if axis is not None:
-            raise Unsupported("reduction with axis")
         if hasattr(a, 'values') and not isinstance(a, np.ndarray):
             a = a.values
         a = np.asarray(a) if not isinstance(a, np.ndarray) else a
+        if axis is not None:
+            if not isinstance(axis, (int, np.integer)):
+                raise Unsupported("reduction with non-integer axis")
+            f = (np.nanmin if is_min else np.nanmax) if skipnan else (np.min if is_min else np.max)
+            if a.dtype != object:
+                return self._it.lift(f(a, axis=int(axis)))
+            m = np.moveaxis(a, int(axis), -1)
+            if m.shape[-1] == 0:
+                raise PathRaise(ValueError, 'zero-size array to reduction operation which has no identity')
+            out = np.empty(m.shape[:-1], dtype=object)
+            for i in np.ndindex(out.shape):
+                out[i] = np_minmax(list(m[i]), is_min, skipnan)
+            e = self._it.sdtype.get(id(a))
+            if e is not None and e[0] is a:
+                self._it.sdtype[id(out)] = (out, e[1])
+            return out
         if a.dtype != object:
             f = (np.nanmin if is_min else np.nanmax) if skipnan else (np.min if is_min else np.max)
             return f(a).item()
@@ -1446,7 +1460,10 @@ class Interp:
             return out
         if name in ('min', 'max'):
             if kw or args:
-                raise Unsupported("min/max with axis")
+                ax = args[0] if args else kw.get('axis')
+                if set(kw) - {'axis'} or len(args) > 1:
+                    raise Unsupported("min/max with keyword arguments other than axis")
+                return it.np._red(base, name == 'min', False, ax)
             if base.dtype != object:
                 return getattr(base, name)().item()
             return np_minmax(list(base.ravel()), name == 'min')
